@@ -84,6 +84,7 @@ Definition k2_witness : tree :=
 Definition k5_witness : tree := Nd [97; 58; 98] [Nd [99] []; Nd [97; 58; 99] []].
 Definition k4_witness : tree := Nd [120] [].
 Definition slash : str := [47].
+Definition ex_chain_names : list str := [[114]; [97; 98]; [120; 32; 121]; [122]].
 (* K6: a(b) and a(c) *)
 Definition k6_tree1 : tree := Nd [97] [Nd [98] []].
 Definition k6_tree2 : tree := Nd [97] [Nd [99] []].
@@ -175,6 +176,52 @@ Theorem C18_h_connectors : forall st inter ws g n a ks d,
 Proof. exact hbranch_connectors. Qed.
 Print Assumptions C18_h_connectors.
 
+(* horizontal round trip, proved for chains (every node has one child; any length, any style whose
+   branch icon is not a blank, intermediate names on or off).  Name guard `clean_name`: rstrip()
+   and the trimming of blanks leave the name alone (no blank at either end, no trailing white
+   space).  The model's text is decoded by the very decoder the check runs on the implementation's
+   text (`h_decode` without guide = text and band widths only) and `h_match` accepts the result:
+   exactly the clause `h_decodable`.  For trees that branch this is checked on every output, not
+   proved: missing is the induction through `h_scan` over a connector column that carries several
+   stacked blocks (the facts it would rest on are proved: C18_h_rows, C18_h_column_bands,
+   C18_h_connectors). *)
+Theorem C18_h_roundtrip_chain_partial : forall st inter n ns,
+  hs_branch st <> 32%N -> forallb clean_name (n :: ns) = true ->
+  exists rows dec,
+    hyield_rows st inter (chain n ns) = Ret rows
+    /\ h_decode (glyphs_of st) inter (band_widths inter (chain n ns)) None rows = Some dec
+    /\ h_match inter dec (chain n ns) = true.
+Proof. exact hroundtrip_chain. Qed.
+Print Assumptions C18_h_roundtrip_chain_partial.
+
+Example C18_h_roundtrip_chain_witness :
+  hs_branch hs_double <> 32%N /\ forallb clean_name ex_chain_names = true /\ length ex_chain_names = 4
+  /\ h_decodable (glyphs_of hs_double) false (chain [114%N] (tl ex_chain_names))
+       (match hyield_rows hs_double false (chain [114%N] (tl ex_chain_names)) with Ret r => r | _ => [] end) = true.
+Proof. vm_compute. repeat split. discriminate. Qed.
+
+(* box_norm sends each of the four box-drawing styles, icon for icon, to the light characters the
+   arm-based decoding uses (finite domain: the styles const, const_bold, rounded, double; seven
+   icons each in the horizontal table, three strings each in the vertical one) *)
+Theorem C18_box_norm_hstyles : forall st,
+  In st [hs_const; hs_const_bold; hs_rounded; hs_double] ->
+  map box_norm [hs_first st; hs_subseq st; hs_split st; hs_middle st; hs_last st; hs_stem st; hs_branch st]
+  = [g_first arm_glyphs; g_subseq arm_glyphs; g_split arm_glyphs; g_middle arm_glyphs; g_last arm_glyphs;
+     g_stem arm_glyphs; g_branch arm_glyphs].
+Proof.
+  intros st H. repeat (destruct H as [<-|H]; [vm_compute; reflexivity|]). destruct H.
+Qed.
+Print Assumptions C18_box_norm_hstyles.
+
+Theorem C18_box_norm_vstyles : forall st,
+  In st [vs_const; vs_const_bold; vs_rounded; vs_double] ->
+  map box_norm (vs_stem st) = vs_stem arm_vstyle /\ map box_norm (vs_branch st) = vs_branch arm_vstyle
+  /\ map box_norm (vs_final st) = vs_final arm_vstyle.
+Proof.
+  intros st H. repeat (destruct H as [<-|H]; [vm_compute; repeat split|]). destruct H.
+Qed.
+Print Assumptions C18_box_norm_vstyles.
+
 (* the whole horizontal clause (bands, icons, connectors, decoding) on concrete inputs: a tree with
    fan-out 4, names of different lengths, a binary node with an empty slot, two single-row children *)
 Example C18_h_witness :
@@ -202,6 +249,17 @@ Print Assumptions C18_mermaid_graph_partial.
 Example C18_mermaid_graph_witness :
   2 <= tsize (compact ex_tree_h) /\ length (mermaid_lines ex_tree_h) = 13.
 Proof. vm_compute. split; [|reflexivity]. repeat constructor. Qed.
+
+(* under every option (shapes, arrows, edge labels, style classes) the references, the edges and the
+   labels are those of the plain chart, and the label written for a node is its name, character for
+   character (tree_to_mermaid does not escape anything).  For dot the same is part of
+   C18_dot_edges_exact (`graph_vertices_ok`: the labels of the vertices are the names in pre-order;
+   pydot receives them unescaped). *)
+Theorem C18_mermaid_labels_exact : forall o t,
+  map mx_core (mermaid_flows_opt o (compact t)) = map mf_core (mermaid_flows t)
+  /\ map mx_to_label (mermaid_flows_opt o (compact t)) = map tname (tl (pre (compact t))).
+Proof. exact mermaid_opt_core. Qed.
+Print Assumptions C18_mermaid_labels_exact.
 
 (* K4: for a one-node tree no flow line and hence no vertex is emitted *)
 Example C18_mermaid_single_node_refuted :
